@@ -52,6 +52,9 @@ fn operator_table(rng: &mut Rng) -> Project {
       // literals written directly at the use sites (element boxing decided at compile time)
       body.push_str(&format!("    let w{k} = Vec.of({a});\n    w{k}.push({b});\n    w{k}.set(0, {b});\n    Process.println(\"lit vec \" :: Str.fromInt(w{k}.get(0)) :: \",\" :: Str.fromInt(w{k}.get(1)) :: \" \" :: Main.b({a} < {b}) :: Main.b({a} == {b}));\n"));
     }
+    // the same elements once written as literals and once arriving as run-time values: every Vec
+    // operation must treat them alike (boxing of elements is decided in two different places)
+    body.push_str(&format!("    let lv{k} = Vec.of({a});\n    lv{k}.push({b});\n    let hv{k} = Vec.of(Str.fromInt({a}).toInt());\n    hv{k}.push(Str.fromInt({b}).toInt());\n    Process.println(\"veq \" :: Main.b(lv{k}.eq(hv{k})) :: Main.b(hv{k}.eq(lv{k})) :: Main.b(lv{k}.eq(lv{k})) :: Main.b(hv{k}.eq(hv{k})));\n    hv{k}.set(0, {b});\n    lv{k}.set(0, Str.fromInt({b}).toInt());\n    Process.println(\"veq2 \" :: Main.b(lv{k}.eq(hv{k})) :: Str.fromInt(hv{k}.pop()) :: Str.fromInt(lv{k}.pop()) :: Main.b(hv{k}.eq(lv{k})));\n"));
     body.push_str(&format!("    let v{k} = Vec.of(a{k});\n    v{k}.push(b{k});\n    Process.println(\"vec \" :: Str.fromInt(v{k}.get(0)) :: \",\" :: Str.fromInt(v{k}.get(1)) :: \" len=\" :: Str.fromInt(v{k}.length()));\n"));
     body.push_str(&format!("    let s{k} = Str.fromInt(a{k}) :: \"|\" :: Str.fromInt(b{k});\n    Process.println(s{k} :: \" eq=\" :: Main.b(s{k} == Str.fromInt({a}) :: \"|\" :: Str.fromInt({b})) :: \" toInt=\" :: Str.fromInt(Str.fromInt(a{k}).toInt()));\n"));
   }
@@ -120,6 +123,8 @@ fn gen_case(prop: &str, seed: u64, i: u64, corpus: &Corpus) -> Case {
       let lit = crate::exprgen::string_literal(start + k, true);
       let next = crate::exprgen::string_literal(start + k + 1, true);
       body.push_str(&format!("    Process.println(\"[\" :: {lit} :: \"]\");\n    Process.println(Main.b({lit} == {next}) :: Main.b({lit} :: \"\" == {lit}) :: Main.b(Main.id({lit}) == {lit}));\n"));
+      // equal contents, one side assembled at run time (a different object: compared byte by byte)
+      body.push_str(&format!("    Process.println(Main.b((Str.fromInt(7) :: {lit}) == (\"7\" :: {lit})) :: Main.b(({lit} :: Str.fromInt(7)) == ({lit} :: \"7\")) :: Main.b((Str.fromInt(7) :: {lit}) != (\"7\" :: {next})));\n"));
     }
     let text = format!("class Main {{\n  function b(x: bool): Str = if x {{ \"T\" }} else {{ \"F\" }}\n  function id(s: Str): Str = s\n  function main(): unit = {{\n{body}  }}\n}}\n");
     return Case { kind: "string-table".into(), label: format!("string literals {start}..{}", start + 96), user: Project::single("str.Table", &text), entry: "str.Table".into(), features: BTreeSet::new() };
